@@ -327,7 +327,8 @@ func length_(computer *ComputedStyle, value pr.DimOrS, fontSize pr.Float, pixels
 		// Convert absolute lengths to pixels
 		result = value.Value * pr.LengthsToPixels[unit]
 	case pr.Em, pr.Ex, pr.Ch, pr.Rem:
-		if fontSize < 0 {
+		ownFontSize := fontSize < 0 // false when computing font-size itself
+		if ownFontSize {
 			fontSize = computer.GetFontSize().Value
 		}
 		var fonts text.FontConfiguration
@@ -344,7 +345,12 @@ func length_(computer *ComputedStyle, value pr.DimOrS, fontSize pr.Float, pixels
 		case pr.Em:
 			result = value.Value * fontSize
 		case pr.Rem:
-			result = value.Value * computer.rootStyle.fontSize.Value
+			if ownFontSize && computer.isRootElement() {
+				// on the root element, only font-size resolves rem against the initial value
+				result = value.Value * fontSize
+			} else {
+				result = value.Value * computer.rootStyle.fontSize.Value
+			}
 		}
 
 	default:
